@@ -86,30 +86,32 @@ TABLE = {
         ("Proofs/ReplayP.v", ["replay_at_most_once", "replay_fresh_accepted", "replay_old_rejected", "replay_inv_init", "replay_inv_step", "accepted_stays_received"]),
         ("Proofs/NPacketP.v", ["decode_sound", "decode_duplicate", "decode_replay_rejected", "decode_keeps_replay_unless_opened"]),
         ("Proofs/NClientP.v", ["client_payload_only_connected"]),
-        ("Proofs/NServerP.v", ["payload_only_from_connected"]),
+        ("Proofs/NServerP.v", ["payload_only_authentic"]),
     ], ""),
     "C05": ("Only a valid, unexpired, untampered token from its own address connects", [
-        ("Proofs/NServerP.v", ["connected_implies_valid_request", "request_rejects", "response_needs_matching_challenge", "token_bound_to_address"]),
+        ("Proofs/NAuthP.v", ["connected_implies_pending_match", "pending_implies_valid_request", "connected_implies_valid_request", "request_rejects", "token_bound_to_address", "token_rebinding_refuted"]),
     ], ""),
     "C07": ("renetcode survives hostile datagrams and tokens; no state change", [
         ("Proofs/NPacketP.v", ["decode_no_panic", "decode_unopened_keeps_replay", "decode_duplicate"]),
         ("Proofs/TokenP.v", ["token_read_no_panic", "private_decode_no_panic"]),
-        ("Proofs/NServerP.v", ["process_packet_no_panic", "inauthentic_is_noop"]),
+        ("Proofs/NServerP.v", ["process_packet_no_panic", "update_client_no_panic", "nserver_disconnect_no_panic", "generate_payload_no_panic", "nsstep_no_panic", "time_since_no_panic"]),
+        ("Proofs/NAuthP.v", ["inauthentic_is_noop", "replayed_is_noop"]),
         ("Proofs/NClientP.v", ["client_no_panic", "client_inauthentic_is_noop"]),
     ], ""),
     "C10": ("Netcode connection table: unique ids, unique addresses, bounded", [
-        ("Proofs/NServerP.v", ["table_inv_init", "table_inv_step", "events_matched", "full_server_refuses"]),
+        ("Proofs/NServerP.v", ["table_inv_init", "table_inv_step", "table_inv_run", "lookup_unique", "events_matched", "slots_bound", "connected_bound_run", "full_server_refuses"]),
     ], ""),
     "C17": ("AEAD discipline: tamper-evident, no nonce reuse", [
         ("Proofs/AeadP.v", ["aead_open_iff", "xaead_open_iff", "aead_seal_inj"]),
         ("Proofs/NPacketP.v", ["decode_sound", "dgram_parts_injective", "aead_input_injective"]),
         ("Proofs/TokenP.v", ["private_decode_sound", "token_aad_inj"]),
-        ("Proofs/NServerP.v", ["server_nonces_disjoint"]),
+        ("Proofs/NServerP.v", ["server_seals_with", "global_seq_ge_init_run", "global_seq_never_reused", "conn_seqs_contiguous", "conn_dgram_seqs_distinct"]),
         ("Proofs/NClientP.v", ["client_sequence_increases"]),
     ], ""),
     "C18": ("Netcode liveness", [
         ("Proofs/NClientP.v", ["client_retries", "client_failover", "client_times_out"]),
-        ("Proofs/NServerP.v", ["server_times_out_silent", "server_keeps_live", "handshake_step_request", "handshake_step_response"]),
+        ("Proofs/NServerP.v", ["server_times_out_silent", "server_keeps_live", "pending_expires", "response_connects"]),
+        ("Proofs/NAuthP.v", ["request_gets_challenge"]),
     ], ""),
     "C19": ("No traffic amplification", [
         ("Proofs/NServerP.v", ["no_amplification"]),
@@ -191,7 +193,7 @@ def main():
                 if any(name in b for b in body):
                     continue
                 # binders before the colon are kept as they are
-                body.append(f"Theorem {name} {st}.\nProof. exact {binder_free(lem, st)}. Qed.\nPrint Assumptions {name}.\n")
+                body.append(f"Theorem {name} {st}.\nProof. exact {binder_free(mod + '.' + lem, st)}. Qed.\nPrint Assumptions {name}.\n")
                 count += 1
         if note:
             lines.append(f"(* {note} *)")
